@@ -3,7 +3,7 @@ package main
 func init() {
 	checks["C20"] = &checkDef{
 		Level:       levelMC,
-		Explanation: "Real clusterClient.DoMulti (_pickMulti, doretry, doresultfn, askingMulti, redirectOrNew, the per-node goroutines) over two node simulators that log what they receive and model a migrating slot the way Redis answers: the source node's slot is stable, has MOVED away, or is migrating (each key either still served or answered ASK); inside MULTI...EXEC a redirected command makes EXEC answer EXECABORT; the target node executes what it gets. Batches: 2..3 plain writes in one slot or split across both nodes, or MULTI + two writes + EXEC optionally followed by a plain write; the cached slot map either knows the batch's slots or has a hole for them (the first pick fails, the forced refresh — overridden to install the slots — is followed by the second pick). Oracle: one result per command, result i is the final reply to command i (EXEC element j is the reply to the j-th queued command); on every node's log a MULTI block is contiguous, complete and closed on the node that received it, and no command of a transaction is ever sent outside its block; an ASK-redirected unit is preceded by ASKING on the named node; redirected commands reach the named node.",
+		Explanation: "Real clusterClient.DoMulti (_pickMulti, doretry, doresultfn, askingMulti, redirectOrNew, the per-node goroutines) over two node simulators that log what they receive and model a migrating slot the way Redis answers: the source node's slot is stable, has MOVED away, or is migrating (each key either still served or answered ASK); inside MULTI...EXEC a redirected command makes EXEC answer EXECABORT; the target node executes what it gets. Batches: 2..3 plain writes in one slot, split across both nodes, or over two slots of the same source node with independent states (one slot already MOVED while the other is still migrating, ASK, to the same target), or MULTI + two writes + EXEC optionally followed by a plain write; the cached slot map either knows the batch's slots or has a hole for them (the first pick fails, the forced refresh — overridden to install the slots — is followed by the second pick). Oracle: one result per command, result i is the final reply to command i (EXEC element j is the reply to the j-th queued command); on every node's log a MULTI block is contiguous, complete and closed on the node that received it, and no command of a transaction is ever sent outside its block; an ASK-redirected unit is preceded by ASKING on the named node; redirected commands reach the named node.",
 		Assumptions: []string{"the topology refresh triggered by redirects is overridden by a no-op (C19 covers it)", "delay bound D on the per-node goroutines"},
 		Trusted:     []string{"node simulators (harness code) modelling MOVED/ASK/EXECABORT as documented by Redis"},
 		Outside:     []string{"DoMultiCache batches (doretrycache/resultcachefn/askingMultiCache)", "retries after LOADING/transport errors inside batches, connection-lifetime recovery (errConnExpired) inside batches", "more than two nodes, more than one transaction per batch"},
